@@ -67,13 +67,20 @@ def corpus(tier):
     take(c7, lambda s: s.features.get('_bound') is None, 60)
     # reverse proxy routing
     take(c12.scenarios('quick'), lambda s: s.features['request'] in ('GET', 'POST') and not s.features['rewrite'], 30 if q else 120)
+    # work initialisation failure behind the TLS front (client botches the handshake)
+    from . import c05
+    for sc in c05.tls_front_scenarios('quick'):
+        if sc.mode == 'local':
+            sc.clients = sc.clients[:1]
+            sc.kinds = ''
+            out.append(sc)
     # de-duplicate by name, make mode-neutral
     uniq = {}
     for s in out:
         s2 = copy.copy(s)
         s2.features = {k: v for k, v in s.features.items() if not k.startswith('_') or k == '_sockbuf'}
         s2.features['origin_check'] = s.name.split('/')[0]
-        s2.kinds = 'ARS' if 'D' not in s.kinds else 'D'
+        s2.kinds = ('ARS' if 'D' not in s.kinds else 'D') if s.features.get('role') != 'tls_front' else 'A'
         uniq.setdefault(s.name, s2)
     return list(uniq.values())
 
